@@ -129,7 +129,7 @@ ExecLoop(kind, body, n, i, st, chm, dflt, outs, acc) ==
   IF i > n THEN
      R3(acc.lps,
         CASE kind = "map"  -> IF n = 0 THEN Nn ELSE Stack(outs)
-          [] kind = "scan" -> Tp(<<st[1], IF n = 0 THEN Nn ELSE Stack(outs)>>)
+          [] kind = "scan" -> Tp(<<st[1], IF n = 0 THEN Vc(<<>>) ELSE Stack(outs)>>)
           [] kind \in {"accumulate", "iterate", "maskediterate"} -> Stack(outs)
           [] OTHER -> st[1],
         acc.err)
